@@ -1,6 +1,8 @@
 SPECIFICATION Spec
 CONSTANTS
   Family = "form"
-  MaxDepth = 4
+  MaxDepth = 3
   FullOps = "all"
+  AllAtomsUpTo = 2
+  DefaultFrom = 99
 INVARIANTS SpineOK FullOK Emit
